@@ -39,7 +39,8 @@ def cases(tier):
         for sub in itertools.combinations(range(9), n):
             for ys in range(4):
                 k += 1
-                reps = ['xy_split', 'xy', 'xy_cont', 'class'] if tier != 'quick' else [['xy_split', 'xy', 'xy_cont', 'class'][k % 4]]
+                allreps = ['xy_split', 'xy', 'xy_cont', 'class', 'xy_cont3', 'xy_cont5']
+                reps = allreps if tier != 'quick' else [allreps[k % 6], allreps[(k + 3) % 6]]
                 for rep in reps:
                     out.append(dict(kind='table', x=[XL[i] for i in sub], ys=ys, rep=rep))
     for npt in (50, 200):
@@ -79,6 +80,12 @@ def table_ini(name, x, y, rep):
         return head + 'interpolation : cubic_spline\nx : %s\ny : %s\n' % (' '.join(X.num(v) for v in x), ' '.join(X.num(v) for v in y))
     if rep == 'xy':
         return head + 'xy : %s\n' % ' '.join('%s %s' % (X.num(a), X.num(b)) for a, b in zip(x, y))
+    if rep in ('xy_cont3', 'xy_cont5'):
+        # continuation lines that hold an odd number of values: pairs straddle the line breaks
+        vals = [X.num(v) for ab in zip(x, y) for v in ab]
+        w = 3 if rep == 'xy_cont3' else 5
+        chunks = [' '.join(vals[i:i + w]) for i in range(0, len(vals), w)]
+        return head + 'xy : ' + chunks[0] + '\n' + ''.join('     %s\n' % c for c in chunks[1:])
     lines = ['%s %s' % (X.num(a), X.num(b)) for a, b in zip(x, y)]
     return head + 'xy : ' + lines[0] + '\n' + ''.join('     %s\n' % l for l in lines[1:])
 
